@@ -47,6 +47,25 @@ def named_types():
         else: out.append((name, 1, int(n1), int(n2 or n1), tsize, isf, 1 if al == 'aligned' else 0, q))
     return out
 
+FWD_CONFIG = 0              # configuration in which the vector / matrix typedef names of glm/fwd.hpp are measured as well
+
+def fwd_named_types():
+    """typedef names of glm/fwd.hpp of the form [(highp|mediump|lowp)_](f32|f64|i8…u64|b|i|u|d|f|)(vecN|matN|matCxR): what the name promises"""
+    import re
+    out, seen = [], set()
+    try: txt = open(os.path.join(ROOT[0], 'glm', 'fwd.hpp')).read()
+    except OSError: return out
+    sizes = {'': (4, 1), 'f': (4, 1), 'd': (8, 1), 'f32': (4, 1), 'f64': (8, 1), 'i': (4, 0), 'u': (4, 0), 'b': (1, 0),
+             'i8': (1, 0), 'u8': (1, 0), 'i16': (2, 0), 'u16': (2, 0), 'i32': (4, 0), 'u32': (4, 0), 'i64': (8, 0), 'u64': (8, 0)}
+    for m in re.finditer(r'typedef\s+[^;]*?\b((?:(highp|mediump|lowp)_)?(f32|f64|i8|i16|i32|i64|u8|u16|u32|u64|b|i|u|d|f|)(vec|mat)(\d)(?:x(\d))?)\s*;', txt):
+        name, prec, el, km, n1, n2 = m.groups()
+        if name in seen: continue
+        seen.add(name)
+        tsize, isf = sizes[el]; q = {'highp': 0, None: 0, 'mediump': 1, 'lowp': 2}[prec]
+        if km == 'vec': out.append((name, 0, int(n1), 1, tsize, isf, 0, q))
+        else: out.append((name, 1, int(n1), int(n2 or n1), tsize, isf, 0, q))
+    return out
+
 def gen(cfg):
     cid, name, defs, flags = cfg
     o = []
@@ -103,8 +122,8 @@ int main() {''')
     o.append('#if HAVE_ALIGNED')
     body(aquals)
     o.append('#endif')
-    if cid in NAMED_CONFIGS:
-        for (nm_, kind, c, r, ts, isf, al, q) in named_types():
+    if cid in NAMED_CONFIGS or cid == FWD_CONFIG:
+        for (nm_, kind, c, r, ts, isf, al, q) in (named_types() if cid in NAMED_CONFIGS else fwd_named_types()):
             if kind == 0: o.append('  row_vec_named<glm::%s>(%d, %d, %d, %d, %d, %d);' % (nm_, cid, c, ts, isf, al, q))
             else: o.append('  row_mat_named<glm::%s>(%d, %d, %d, %d, %d, %d, %d);' % (nm_, cid, c, r, ts, isf, al, q))
     # the default-qualifier typedefs users actually write
